@@ -4,7 +4,7 @@ use std::fs::File;
 use boreal::memory::MemoryParams;
 use serde_json::{json, Value};
 
-use crate::util::*;
+use bvh::util::*;
 
 pub fn run(case: &Value) -> Value {
     let maps = File::open(get_str(case, "maps")).unwrap();
@@ -36,4 +36,8 @@ pub fn run(case: &Value) -> Value {
         }
     }
     json!({"outs": outs})
+}
+
+fn main() {
+    bvh::run_main(run);
 }
